@@ -388,10 +388,13 @@ def fresh_local_operand(fn, w, operand, _depth=0):
         if not c or c.get('bases') or not any(fl['name'] == op[1][1:] and not fl.get('init') for fl in c.get('fields', [])):
             return False
     # no earlier use of the local
+    pmap = fn.parent_map()
     for m, mo in fn.nodes.items():
         if mo['cls'] == 'DeclRefExpr' and fn.decl(m)['kind'] == 'var' and fn.decl(m)['id'] == vid:
             if m in fn.descendants(n):
                 continue
+            if fn.nodes.get(pmap.get(m), {}).get('cls') == 'LambdaExpr':
+                continue      # naming the local in a capture list (by reference) does not touch it
             if fn.pos_reaches(fn.pos(m), w['pos']) and not fn.pos_reaches(w['pos'], fn.pos(m)):
                 return False
     return True
